@@ -21,7 +21,7 @@ PROPS = {
                      "the scale type SDdiminfo reports is not part of the compared view: it is 0 until the coordinate variable's data has been read once in the session (NCvario raises numrecs on reads)"],
     ),
     "C01": dict(
-        lean_props=["H4.Props.C01", "H4.Props.C01Ext"],
+        lean_props=["H4.Props.C01", "H4.Props.C01Ext", "H4.Props.C01Fn", "H4.Props.C01FnInq", "H4.Props.C01FnW"],
         engines=[
             E("elem", "e_elem.c", model="elem", quick=dict(cases=1200, chunk=40), thorough=dict(cases=20000, seeds=8, chunk=100), wrap=True),
             E("ext", "e_ext.c", model="ext", quick=dict(cases=800, chunk=40), thorough=dict(cases=10000, seeds=8, chunk=100)),
@@ -183,7 +183,7 @@ PROPS = {
                      "attribute names are non-empty and contain no NUL or comma; dimension names set by the user do not start with \"fakeDim\" (known finding otherwise)"],
     ),
     "C20": dict(
-        lean_props=["H4.Props.C20", "H4.Props.C12Fn2", "H4.Props.C20Fld"],
+        lean_props=["H4.Props.C20", "H4.Props.C12Fn2", "H4.Props.C20Fld", "H4.Props.C20Fn"],
         engines=[
             E("limits", "e_limits.c", model="limits", cflags=["-fwrapv", "-fno-sanitize=signed-integer-overflow"],
               quick=dict(cases=320, chunk=10, timeout=1200), thorough=dict(cases=3200, seeds=2, chunk=20, timeout=2400)),
